@@ -26,7 +26,7 @@ def judge_unary(gens, n):
     int64 matrices and as strings must give the same answers)."""
     from .. import impl
     msgs = judge_unary_on(lib_stab(gens, n), gens, n)
-    if not msgs:
+    if not msgs and (n <= 5 or sum(p[0] * 5 + p[1] for p in gens) % 8 == 0):      # n = 6: every eighth presentation
         R, S, ph = impl.gens_to_matrices(gens, n)
         prod = weight_one_qubits(gens, n)
         for label, st in (("bool matrices", impl.Stabilizer((R.astype(bool), S.astype(bool), ph.astype(bool)))),
